@@ -611,7 +611,7 @@ impl Property for Text {
     fn budget(&self, tier: Tier) -> Budget {
         Budget {
             cases: tier.pick(300_000, 10_000_000),
-            tape_len: 900,
+            tape_len: 4500,
         }
     }
     fn decode(&self, t: &mut Tape<'_>) -> TextCase {
